@@ -268,8 +268,9 @@ class C20(Prop):
         'thread played deterministically inside time.sleep, zmq putters/advance/publish replaced by recorders; compared '
         'inside Coq by vm_compute with the model',
         'process-level environment observed with libc getenv (ctypes) in the worker process',
-        'modelled, not verified: mp.Process/_dispatch liveness and time-out races, result queue transport, MPI worker, '
-        'heartbeats/registration, profiling/logging, sandbox creation',
+        'DefaultWorker._dispatch is run for real in a forked process (mp.Process, mp.Queue) on 16 payload endings',
+        'modelled, not verified: the time-out race of _dispatch (duplicate report), result queue transport between '
+        'processes, MPI worker, heartbeats/registration, profiling/logging, sandbox creation',
     ]
     assumptions = ['request uids in one stream are distinct', 'payloads change the environment through os.environ '
                    '(not os.putenv) and do not rebind sys.stdout themselves',
